@@ -37,7 +37,7 @@ def check(run):
     _r1(run, beam, att)
     _r2(run, prog, beam, att)
     _r3(run, beam, att)
-    run.include('C01', {'cherab/core/beam/node.pyx', 'cherab/core/model/attenuator/singleray.pyx', 'cherab/core/beam/model.pyx'},
+    run.include('C01', {'cherab/core/beam/node.pyx', 'cherab/core/model/attenuator/singleray.pyx', 'cherab/core/beam/model.pyx'} | {'cherab/core/plasma/node.pyx', 'cherab/core/plasma/model.pyx', 'cherab/core/utility/notify.py'},
                 'the attenuation is computed for the plasma, beam and atomic data currently attached')
     from ..cachekey import check_caches
     check_caches(run, [m_ for m_ in prog.modules.values() if m_.relpath in set(FILES) and not m_.name.endswith('#pxd')], 'C04-K', prog=prog)
